@@ -996,6 +996,38 @@ def np_argwhere(interp, name, args, kw, st, node):
     return fresh_arr(t, (Dim.unknown("argwhere"), Dim(len(sh)) if sh is not None else Dim.unknown("r")), x.labels, "int")
 
 
+@reg("numpy.copyto")
+def np_copyto(interp, name, args, kw, st, node):
+    """np.copyto(dst, src, where=m): dst[m] = src with m broadcast against dst (a vector mask selects columns of a matrix,
+    a column mask m[:, None] selects rows)"""
+    b = bind(["dst", "src", "casting", "where"], args, kw)
+    dst, src = arrv(b["dst"]), arrv(b["src"])
+    wh = b.get("where")
+    full = T("slice", const(None), const(None), const(None))
+    if wh is None or wh.kind == "none" or (wh.has_const and wh.const is True):
+        idx_t = full
+    else:
+        m = arrv(wh)
+        sd, sm = shape(dst), shape(m)
+        idx_t = None
+        if sd is not None and sm is not None:
+            if len(sm) == len(sd) and tuple(sm) == tuple(sd):
+                idx_t = m.term
+            elif len(sd) == 2 and len(sm) == 1 and sm[0] == sd[1]:
+                idx_t = T("tuple", full, m.term)
+            elif len(sd) == 2 and len(sm) == 2 and sm[0] == sd[0] and sm[1].is_const() and sm[1].c == 1 and isinstance(m.term, Term) and m.term.op in ("reshape1", "reshape", "getitem") and isinstance(m.term.args[0], Term):
+                src_m = interp.vtab.get(m.term.args[0])
+                if src_m is not None and shape(src_m) is not None and len(shape(src_m)) == 1:
+                    idx_t = src_m.term
+        if idx_t is None:
+            interp.event("mutate", node, st, how="copyto", target=dst, value=src, targetsrc="dst")
+            interp.rebind(dst, dst.replace(term=T("copyto", dst.term, src.term, m.term)), st)
+            return vconst(None)
+    interp.event("mutate", node, st, how="copyto", target=dst, value=src, targetsrc="dst")
+    interp.rebind(dst, dst.replace(term=T("store", dst.term, idx_t, src.term), has_const=False, const_=None, items=None), st)
+    return vconst(None)
+
+
 @reg("numpy.searchsorted")
 def np_searchsorted(interp, name, args, kw, st, node):
     b = bind(["a", "v", "side"], args, kw)
@@ -2471,9 +2503,32 @@ def np_einsum(interp, name, args, kw, st, node):
         interp.event("opaque-call", node, st, fn=name)
         return V("unk", callterm(name, args, kw), labels=_L(*args, *kw.values()), orig=frozenset([FRESH]))
 
-    if not args or not (args[0].has_const and isinstance(args[0].const, str)) or kw:
+    if not args or not (args[0].has_const and isinstance(args[0].const, str)) or [k for k in kw if k not in ("order", "optimize", "casting")]:
         return opaque()
+    kw = {}
     spec = args[0].const.replace(" ", "")
+    if "..." in spec:
+        # an ellipsis stands for the axes of an operand that carry no letter: written out with fresh letters
+        lhs0, _, out0 = spec.partition("->")
+        subs0 = lhs0.split(",")
+        ops0 = [arrv(a) for a in args[1:]]
+        if len(ops0) != len(subs0) or "->" not in spec:
+            return opaque()
+        extra_n = 0
+        for o_, s_ in zip(ops0, subs0):
+            if "..." in s_:
+                if shape(o_) is None:
+                    return opaque()
+                extra_n = max(extra_n, len(shape(o_)) - len(s_.replace("...", "")))
+        fresh = [c for c in "ZYXWVU" if c not in spec][:extra_n]
+        if len(fresh) < extra_n:
+            return opaque()
+        def expand(s_, o_=None):
+            if "..." not in s_:
+                return s_
+            k_ = extra_n if o_ is None else len(shape(o_)) - len(s_.replace("...", ""))
+            return s_.replace("...", "".join(fresh[extra_n - k_:]) if k_ else "")
+        spec = ",".join(expand(s_, o_) for s_, o_ in zip(subs0, ops0)) + "->" + expand(out0)
     if "." in spec:
         return opaque()
     lhs, _, out = spec.partition("->")
@@ -2573,6 +2628,15 @@ def np_einsum(interp, name, args, kw, st, node):
                 cur = had(cur, b)
             continue
         shared = [c for c in ci if c in ni]
+        if len(shared) == 1 and shared[0] in later and len(ni) == 1 and len(ci) == 2:
+            # a vector scaling one axis of the running matrix; the index stays for a later contraction
+            dgv = fresh_arr(T("dg", nxt.term), (shape(nxt)[0], shape(nxt)[0]), nxt.labels)
+            cur = mm(dgv, cur) if ci[0] == ni else mm(cur, dgv)
+            continue
+        if len(shared) == 1 and shared[0] in later and len(ci) == 1 and len(ni) == 2:
+            dgv = fresh_arr(T("dg", cur.term), (shape(cur)[0], shape(cur)[0]), cur.labels)
+            cur, ci = (mm(dgv, nxt) if ni[0] == ci else mm(nxt, dgv)), ni
+            continue
         if len(shared) != 1 or shared[0] in later:
             return opaque()
         c = shared[0]
